@@ -4876,6 +4876,11 @@ class Symbol:
         # choice: it is a choice symbol, which is resolved on choice level
         # _sdkconfig_value is None: symbol is not present in sdkconfig (shouldn't happen, but just in case)
         # resolve_vis() == 0: symbol is not visible, so we don't need to resolve its defaults
+        if self.choice and self._loaded_as_default and self._sdkconfig_value is not None:
+            # A symbol that depends on this choice symbol asked it to go first: the stored selection of the choice
+            # has to be settled before that symbol's own stored default is compared with its Kconfig default.
+            self.choice.resolve_defaults()
+            return
         if (
             self._defaults_resolved
             or self._user_value is not None
